@@ -232,6 +232,13 @@ def run_check(pid, tier, seed):
         if not os.path.exists(core.HMDRIVER):
             raise core.Infra('hmdriver missing: ' + proof.get('log', '')[-800:])
         mod.run(ctx)
+        if tier == 'thorough':
+            # as deep as the budget allows: the whole exploration again under two further generator seeds
+            for k in (1, 2):
+                ctx.seed = seed + 7919 * k
+                mod.run(ctx)
+                ctx.notes.append('thorough tier: exploration repeated with generator seed %d' % ctx.seed)
+            ctx.seed = seed
         # widen the search when only a proof / correspondence break was seen
         oracle = [p for p in ctx.problems if p.kind == 'oracle']
         broken = [p for p in ctx.problems if p.kind in ('proof', 'corr')]
